@@ -343,6 +343,21 @@ def check(ctx):
                         rec = any(isinstance(x, ast.Call) and isinstance(x.func, ast.Name) and x.func.id == h.name for l_ in loops_ for x in (ast.walk(l_) if isinstance(l_, ast.For) else ast.walk(parent(l_)))) or any((call_name(x) or "") in ("walk", "ast.walk", "gather_names", "gather_load_store_names") for x in calls_in(h))
                         (deep if rec else shallow).append(c)
         ctx.ob("R1", f"{AS}:CtxAwareTransformer.visit_Assign", "the names of a tuple / list target are collected at every level of nesting (a recursive helper or a full walk), not from its direct elements only", bool(deep), key="Assign|nested-target-names", where=loc(shallow[0]) if shallow else loc(va), detail=f"`{short(shallow[0], 60)}` looks at one level" if shallow and not deep else None)
+    # ------------------------------------------------------------------ R3 (walrus vs. comprehension scopes)
+    # PEP 572: `:=` inside a comprehension binds in the scope that *contains* the comprehension.  If a visitor gives
+    # comprehensions a scope of their own (pushed, discarded afterwards), the walrus binder must not register its
+    # target in the innermost scope.
+    comp_scopes = []
+    for construct in ("ListComp", "SetComp", "DictComp", "GeneratorExp"):
+        cfn, cname = _resolve_visitor(cls, f"visit_{construct}")
+        if cfn is not None and any(call_name(c) == "self.contexts.append" for c in calls_in(flat(ctx, cfn, depth=2, skip=("ctxadd", "ctxupdate", "generic_visit", "visit")))):
+            comp_scopes.append((construct, cname))
+    wfn, _ = _resolve_visitor(cls, "visit_NamedExpr")
+    if wfn is None:
+        raise AnalysisError(f"{AS}:CtxAwareTransformer: no visitor for NamedExpr")
+    w_top = [c for c in calls_in(wfn) if call_name(c) in ("self.ctxadd", "self.ctxupdate")] + [c for c in calls_in(wfn) if isinstance(c.func, ast.Attribute) and c.func.attr in ("add", "update") and _ctx_level(c.func.value, CTX_PROPS) == "top"]
+    ok = not (comp_scopes and w_top)
+    ctx.ob("R3", f"{AS}:CtxAwareTransformer.visit_NamedExpr", "a `:=` target is registered in a scope that outlives the comprehension it may stand in (no discarded comprehension scope, or the walrus binder writes past it)", ok, key="NamedExpr|walrus-bound-in-discarded-comprehension-scope", where=loc(w_top[0]) if w_top else loc(wfn), detail=None if ok else f"{', '.join(c_ for c_, _ in comp_scopes)} are visited inside a scope of their own ({comp_scopes[0][1]} pushes and pops one) and `{short(w_top[0], 40)}` writes the innermost scope: a name bound by `:=` inside a comprehension is forgotten when the comprehension ends, and a later line that reads it is taken for a command")
     # ------------------------------------------------------------------ R3
     for construct in ("FunctionDef", "ClassDef", "Lambda"):
         fn, _ = _resolve_visitor(cls, f"visit_{construct}")
